@@ -47,7 +47,11 @@ type TagMix struct {
 }
 
 func randQualifierArg(rng *rand.Rand) string {
-	switch rng.Intn(6) {
+	switch rng.Intn(8) {
+	case 6:
+		return ",qualifier=" // explicit empty assignment: the requested set is {""} as well
+	case 7:
+		return ",qualifier= " + qualPool[rng.Intn(len(qualPool))] // the empty group plus one more
 	case 0:
 		return ",qualifier" // bare: the requested set is {""}
 	case 1:
